@@ -65,7 +65,7 @@ func runOp(s *hlib.Suite, qf qframe.QFrame, desc map[string]interface{}, op func
 			for k, v := range desc {
 				d9[k] = v
 			}
-			d9["props"] = []string{"C09"}
+			d9["props"] = []string{"C09", "C14"}
 			class := ""
 			if hasDupNames(od) {
 				class = "duplicate-column-names"
